@@ -515,6 +515,10 @@ __attribute__((used, visibility("default"))) const char* __ubsan_default_options
 #endif
 	return "halt_on_error=1:exitcode=77:print_stacktrace=1";
 }
+__attribute__((used, visibility("default"))) const char* __msan_default_options(void)
+{
+	return "exitcode=77:halt_on_error=1:print_stats=0";
+}
 __attribute__((used, visibility("default"))) const char* __tsan_default_options(void)
 {
 	return "exitcode=0:halt_on_error=0:report_signal_unsafe=0:history_size=2";
